@@ -330,6 +330,33 @@ CHECKS = {
         "in seeded random sessions); character strings only (no invalid UTF-8); "
         "column is checked against the text, not against the reported line",
         "DESIGN.md 4-C09", "mofcompile"),
+    "C12": (
+        "TLA+ declarative definition of the exposed class (Exposed(c) by recursion over "
+        "the ancestors: nearest declaration, first introducer, propagated, qualifier flow "
+        "per flavor) as requirement machine; code-shaped incremental resolver / get_class / "
+        "subclass enumeration model-checked against it with TLC; TLC-simulated and seeded "
+        "class-forest histories replayed on the mock through CreateClass and MOF compilation, "
+        "every query result judged by TLC",
+        "TLC proves on every forest reachable by CreateClass/ModifyClass/DeleteClass/"
+        "CreateInstance in any accepted order (<=5 classes, depth <=4; property, method, "
+        "parameter and class-level qualifiers of three flavor kinds x all values) that the "
+        "code-shaped machine (classes stored resolved, resolved incrementally against the "
+        "stored superclass) delivers exactly Exposed(c), that all flag/PropertyList "
+        "combinations only remove information and that enumerations/DeleteClass follow the "
+        "subtree - for the repaired design; the transcription of the code as it is fails in "
+        "three places (design-level counterexamples = the known defects), two regression "
+        "variants fail as required. TLC-simulated and seeded histories (6 classes, depth <=5, "
+        "both creation paths, lexical case of every name randomised) run on the real "
+        "FakedWBEMConnection; GetClass with all 2^3 flag combinations x 4 property lists, "
+        "EnumerateClasses/ClassNames/Instances/InstanceNames and DeleteClass results are "
+        "projected and judged by TLC, which recomputes Exposed from its own abstract forest; "
+        "the code-shaped machine is followed in lock step (0 drift).",
+        "small-scope universe (k,p,q,m(x); QA/QB/QC/Key; values absent/1/2); version tokens "
+        "identify the exposed declaration; propagated of overriding elements, qualifier "
+        "propagated flags and Restricted qualifiers on non-redeclared elements are free; "
+        "EnumerateClasses(IncludeClassOrigin=True) delivering no class_origin is reported "
+        "as observation only",
+        "DESIGN.md 4-C12", "classmodel"),
     "C10": (
         "TLA+ reference keyed map with set-valued status codes (RepoCore); "
         "code-shaped validation-order + dict/heap machine refinement in TLC; "
